@@ -6,6 +6,7 @@ package interp
 import (
 	"fmt"
 	"go/types"
+	"regexp"
 	"strings"
 	"unsafe"
 
@@ -34,8 +35,31 @@ func (i *interpreter) lookupExternal(fn *ssa.Function, name string) externalFn {
 		return e
 	}
 	if strings.HasPrefix(name, "(*regexp.Regexp).") {
+		meth := strings.TrimPrefix(name, "(*regexp.Regexp).")
 		return func(fr *frame, args []value) value {
-			panic(engineError("regexp is not modelled: " + name))
+			re := fr.i.regexps[args[0].(*value)]
+			if re == nil {
+				panic(engineError("regexp without a recorded pattern: " + name))
+			}
+			strs := func(l []string) value {
+				if l == nil {
+					return []value(nil)
+				}
+				out := make([]value, len(l))
+				for k, x := range l {
+					out[k] = x
+				}
+				return out
+			}
+			switch meth {
+			case "FindStringSubmatch":
+				return strs(re.FindStringSubmatch(strArg(args[1])))
+			case "MatchString":
+				return re.MatchString(strArg(args[1]))
+			case "Split":
+				return strs(re.Split(strArg(args[1]), int(asInt64(args[2]))))
+			}
+			panic(engineError("regexp method is not modelled: " + name))
 		}
 	}
 	return nil
@@ -189,6 +213,8 @@ func init() {
 		"log.Printf":  func(fr *frame, args []value) value { return nil },
 		"regexp.MustCompile":      opaqueRegexp,
 		"regexp.MustCompilePOSIX": opaqueRegexp,
+		"encoding/binary.Read":  extBinaryRead,
+		"encoding/binary.Write": extBinaryWrite,
 		"time.Now": func(fr *frame, args []value) value {
 			return zero(fr.fn.Signature.Results().At(0).Type())
 		},
@@ -286,9 +312,21 @@ func init() {
 	}
 }
 
+// regexps are compiled natively and applied to concrete strings only.
 func opaqueRegexp(fr *frame, args []value) value {
 	v := zero(mustDeref(fr.fn.Signature.Results().At(0).Type()))
-	return &v
+	p := &v
+	var re *regexp.Regexp
+	if strings.HasSuffix(fr.fn.Name(), "POSIX") {
+		re = regexp.MustCompilePOSIX(strArg(args[0]))
+	} else {
+		re = regexp.MustCompile(strArg(args[0]))
+	}
+	if fr.i.regexps == nil {
+		fr.i.regexps = map[*value]*regexp.Regexp{}
+	}
+	fr.i.regexps[p] = re
+	return p
 }
 
 func (i *interpreter) randCounter() int {
@@ -312,38 +350,115 @@ func (i *interpreter) applyUF(args []value, k types.BasicKind) value {
 // Error method is needed so that the target can call err.Error().  We reuse
 // the interpreter's reflect.error type (errorType), whose payload is a string.
 func extErrorf(fr *frame, args []value) value {
-	return iface{t: errorType, v: formatish(args)}
+	return iface{t: errorType, v: formatish(fr, args)}
 }
 
 func extSprintf(fr *frame, args []value) value {
-	return formatish(args)
+	return formatish(fr, args)
+}
+
+// stringerOf calls String()/Error() of a concrete operand, if it has one.
+func stringerOf(fr *frame, it iface) (string, bool) {
+	if it.t == nil || containsSym(it.v) {
+		return "", false
+	}
+	for _, name := range []string{"Error", "String"} {
+		ms := fr.i.prog.MethodSets.MethodSet(it.t)
+		for k := 0; k < ms.Len(); k++ {
+			o := ms.At(k).Obj()
+			if o.Name() != name {
+				continue
+			}
+			sig := o.Type().(*types.Signature)
+			if sig.Params().Len() != 0 || sig.Results().Len() != 1 {
+				continue
+			}
+			if b, ok := sig.Results().At(0).Type().Underlying().(*types.Basic); !ok || b.Kind() != types.String {
+				continue
+			}
+			fn := fr.i.prog.MethodValue(ms.At(k))
+			if fn == nil {
+				continue
+			}
+			if it.t == errorType {
+				if s, ok := it.v.(string); ok {
+					return s, true
+				}
+			}
+			r := call(fr.i, fr, 0, fn, []value{it.v})
+			if s, ok := r.(string); ok {
+				return s, true
+			}
+		}
+	}
+	return "", false
 }
 
 // formatish renders format with concrete basic operands and <sym>/<opaque>
 // placeholders; formatting is never the subject of a property.
-func formatish(args []value) string {
+func formatish(fr *frame, args []value) string {
 	format := strArg(args[0])
-	var ops []any
+	var l []value
 	if len(args) > 1 {
-		if l, ok := args[1].([]value); ok {
-			for _, a := range l {
-				x := a
-				if it, ok := a.(iface); ok {
-					x = it.v
-				}
-				switch x.(type) {
-				case bool, int, int8, int16, int32, int64, uint, uint8, uint16, uint32, uint64, uintptr, string, float32, float64:
-					ops = append(ops, x)
-				case sym:
-					ops = append(ops, "<sym>")
-				default:
-					ops = append(ops, "<opaque>")
+		l, _ = args[1].([]value)
+	}
+	var sb strings.Builder
+	ai := 0
+	for k := 0; k < len(format); k++ {
+		c := format[k]
+		if c != '%' {
+			sb.WriteByte(c)
+			continue
+		}
+		j := k + 1
+		for j < len(format) && strings.IndexByte("+-# 0123456789.*", format[j]) >= 0 {
+			j++
+		}
+		if j >= len(format) {
+			sb.WriteString(format[k:])
+			break
+		}
+		verb := format[j]
+		spec := format[k : j+1]
+		k = j
+		if verb == '%' {
+			sb.WriteByte('%')
+			continue
+		}
+		if ai >= len(l) {
+			sb.WriteString("%!" + string(verb) + "(MISSING)")
+			continue
+		}
+		a := l[ai]
+		ai++
+		x := a
+		if it, ok := a.(iface); ok {
+			x = it.v
+			if verb == 's' || verb == 'v' || verb == 'q' {
+				if str, ok := stringerOf(fr, it); ok {
+					x = str
+				} else if p, ok := x.(*value); ok && p != nil && it.t != nil {
+					if pt, ok := it.t.Underlying().(*types.Pointer); ok {
+						if str, ok := stringerOf(fr, iface{pt.Elem(), load(pt.Elem(), p)}); ok {
+							x = str
+						}
+					}
 				}
 			}
 		}
+		switch x.(type) {
+		case bool, int, int8, int16, int32, int64, uint, uint8, uint16, uint32, uint64, uintptr, string, float32, float64:
+			if verb == 'w' || verb == 'T' {
+				spec = spec[:len(spec)-1] + "v"
+			}
+			sb.WriteString(fmt.Sprintf(spec, x))
+		case sym:
+			sb.WriteString("<sym>")
+		default:
+			sb.WriteString("<opaque>")
+		}
 	}
-	f := strings.NewReplacer("%w", "%v", "%s", "%v", "%x", "%v", "%d", "%v", "%T", "%v", "%q", "%v", "%c", "%v").Replace(format)
-	return fmt.Sprintf(f, ops...)
+	return sb.String()
 }
 
 // ---- atomics
@@ -503,4 +618,218 @@ func poolPut(fr *frame, args []value) value {
 	}
 	i.pools[p] = append(i.pools[p], args[1])
 	return nil
+}
+
+// ---- encoding/binary.Read / Write (reflection based in the real source):
+// typed fixed-size load/store derived from the dynamic type of the argument.
+
+func binFields(t types.Type, out *[]types.BasicKind) bool {
+	switch u := t.Underlying().(type) {
+	case *types.Basic:
+		switch u.Kind() {
+		case types.Uint8, types.Int8, types.Uint16, types.Int16, types.Uint32, types.Int32, types.Uint64, types.Int64, types.Bool:
+			*out = append(*out, u.Kind())
+			return true
+		}
+		return false
+	case *types.Struct:
+		for k := 0; k < u.NumFields(); k++ {
+			if !binFields(u.Field(k).Type(), out) {
+				return false
+			}
+		}
+		return true
+	case *types.Array:
+		for k := int64(0); k < u.Len(); k++ {
+			if !binFields(u.Elem(), out) {
+				return false
+			}
+		}
+		return true
+	}
+	return false
+}
+
+func binWidth(k types.BasicKind) int {
+	if k == types.Bool {
+		return 1
+	}
+	return kindWidth(k) / 8
+}
+
+func (i *interpreter) bigEndian(order value) bool {
+	o := order.(iface)
+	n := o.t.String()
+	if strings.HasSuffix(n, "bigEndian") {
+		return true
+	}
+	if strings.HasSuffix(n, "littleEndian") {
+		return false
+	}
+	panic(engineError("encoding/binary: unknown byte order " + n))
+}
+
+func (i *interpreter) ioError(name string) value {
+	for _, pkg := range i.prog.AllPackages() {
+		if pkg.Pkg.Path() == "io" {
+			if g, ok := pkg.Members[name].(*ssa.Global); ok {
+				return *i.globals[g]
+			}
+		}
+	}
+	panic(engineError("io." + name + " not found"))
+}
+
+// leafCells returns the scalar cells of the value at *p in declaration order.
+func leafCells(p *value, out *[]*value) {
+	switch x := (*p).(type) {
+	case structure:
+		for k := range x {
+			leafCells(&x[k], out)
+		}
+	case array:
+		for k := range x {
+			leafCells(&x[k], out)
+		}
+	default:
+		*out = append(*out, p)
+	}
+}
+
+func extBinaryRead(fr *frame, args []value) value {
+	i := fr.i
+	i.requireUnguarded("binary.Read")
+	data := args[2].(iface)
+	pt, ok := data.t.Underlying().(*types.Pointer)
+	if !ok {
+		panic(engineError("binary.Read: unsupported data type " + data.t.String()))
+	}
+	var kinds []types.BasicKind
+	if !binFields(pt.Elem(), &kinds) {
+		panic(engineError("binary.Read: unsupported element type " + pt.Elem().String()))
+	}
+	size := 0
+	for _, k := range kinds {
+		size += binWidth(k)
+	}
+	buf := make([]value, size)
+	for k := range buf {
+		buf[k] = uint8(0)
+	}
+	got := 0
+	rd := args[0].(iface)
+	for got < size {
+		r := callMethodArgs(i, fr, rd, "Read", []value(buf[got:])).(tuple)
+		n := int(i.concreteInt(r[0], "Read result"))
+		got += n
+		if e := r[1].(iface); e.t != nil {
+			if got >= size {
+				break
+			}
+			if got == 0 {
+				return e
+			}
+			// partial data then an error: ReadFull reports ErrUnexpectedEOF for EOF
+			eof := i.ioError("EOF").(iface)
+			if sameType(e.t, eof.t) && e.v == eof.v {
+				return i.ioError("ErrUnexpectedEOF")
+			}
+			return e
+		}
+		if n == 0 {
+			panic(engineError("binary.Read: reader returned 0, nil"))
+		}
+	}
+	big := i.bigEndian(args[1])
+	var cells []*value
+	leafCells(data.v.(*value), &cells)
+	if len(cells) != len(kinds) {
+		panic(engineError("binary.Read: layout mismatch"))
+	}
+	off := 0
+	for k, kind := range kinds {
+		w := binWidth(kind)
+		var t *Term
+		for b := 0; b < w; b++ {
+			idx := off + b
+			if !big {
+				idx = off + w - 1 - b
+			}
+			bt, _ := i.termOf(buf[idx])
+			t = i.tt.Concat(t, bt)
+		}
+		if kind == types.Bool {
+			*cells[k] = i.mkval(i.tt.Not(i.tt.Eq(t, i.tt.Const(8, 0))), types.Bool)
+		} else {
+			*cells[k] = i.mkval(t, kind)
+		}
+		off += w
+	}
+	return iface{}
+}
+
+func extBinaryWrite(fr *frame, args []value) value {
+	i := fr.i
+	i.requireUnguarded("binary.Write")
+	data := args[2].(iface)
+	t := data.t
+	var v value = data.v
+	var cells []*value
+	if pt, ok := t.Underlying().(*types.Pointer); ok {
+		t = pt.Elem()
+		leafCells(v.(*value), &cells)
+	} else {
+		tmp := v
+		leafCells(&tmp, &cells)
+	}
+	var kinds []types.BasicKind
+	if sl, ok := t.Underlying().(*types.Slice); ok {
+		var ek []types.BasicKind
+		if !binFields(sl.Elem(), &ek) || len(ek) != 1 {
+			panic(engineError("binary.Write: unsupported slice type " + t.String()))
+		}
+		cells = nil
+		s := v.([]value)
+		for k := range s {
+			cells = append(cells, &s[k])
+			kinds = append(kinds, ek[0])
+		}
+	} else if !binFields(t, &kinds) {
+		panic(engineError("binary.Write: unsupported data type " + t.String()))
+	}
+	big := i.bigEndian(args[1])
+	var buf []value
+	for k, kind := range kinds {
+		w := binWidth(kind)
+		ct, _ := i.termOf(*cells[k])
+		if kind == types.Bool {
+			ct = i.tt.Ite(ct, i.tt.Const(8, 1), i.tt.Const(8, 0))
+		}
+		bytes := make([]value, w)
+		for b := 0; b < w; b++ {
+			bt := i.tt.Extract(ct, 8*b+7, 8*b)
+			pos := w - 1 - b
+			if !big {
+				pos = b
+			}
+			bytes[pos] = i.mkval(bt, types.Uint8)
+		}
+		buf = append(buf, bytes...)
+	}
+	r := callMethodArgs(i, fr, args[0].(iface), "Write", buf).(tuple)
+	return r[1]
+}
+
+func callMethodArgs(i *interpreter, fr *frame, recv iface, name string, args ...value) value {
+	if recv.t == nil {
+		panic(targetPanic{"runtime error: invalid memory address or nil pointer dereference"})
+	}
+	ms := i.prog.MethodSets.MethodSet(recv.t)
+	for k := 0; k < ms.Len(); k++ {
+		if ms.At(k).Obj().Name() == name {
+			fn := i.prog.MethodValue(ms.At(k))
+			return call(i, fr, 0, fn, append([]value{recv.v}, args...))
+		}
+	}
+	panic(engineError("method " + name + " not found on " + recv.t.String()))
 }
